@@ -388,6 +388,11 @@ func (ex *Exec) external(fr *Frame, st *State, fn *ssa.Function, args []Value, p
 			}
 			r := ex.freshResult(st, rt)
 			switch name {
+			case "errors.New", "fmt.Errorf":
+				// documented: these constructors never return nil
+				if iv, ok := r.(IfV); ok {
+					st.assume(Neq(iv.Tag, BVi(0, 32)))
+				}
 			case "math/rand.Int31n", "math/rand.Int63n", "math/rand.Intn":
 				// documented: returns a value in [0, n); panics if n <= 0
 				if n, ok := args[0].(Sc); ok {
